@@ -36,7 +36,7 @@ CLASSES = {
     "logonr": ("A", [(98, 0), (108, 30), (141, "Y")]),
 }
 # ("seq-spelled-*": a MsgSeqNum that only Python's int() takes for the expected number - '+5', ' 5', '0_5': a missing / unusable MsgSeqNum)
-DEFECTS = ["seq-spelled-plus", "seq-spelled-blank", "seq-spelled-underscore", "sender-missing", "target-missing", "sender-wrong", "target-wrong", "sender-case", "target-case", "swapped", "both-missing", "seq-missing", "seq-too-low", "seq-one",
+DEFECTS = ["seq-too-low-dupflag-odd", "seq-spelled-plus", "seq-spelled-blank", "seq-spelled-underscore", "sender-missing", "target-missing", "sender-wrong", "target-wrong", "sender-case", "target-case", "swapped", "both-missing", "seq-missing", "seq-too-low", "seq-one",
            "beginstring-42", "beginstring-fixt"]
 ORDERS = ["std", "seq-first", "ids-last"]
 
@@ -108,7 +108,7 @@ def all_cells():
                 for d in DEFECTS:
                     if cls == "logonr" and (d == "seq-one" or (d == "seq-too-low" and st == "prelogon")):
                         continue
-                    if d.startswith("seq-spelled") and cls not in ("app", "hb", "logon", "tr"):
+                    if (d.startswith("seq-spelled") or d == "seq-too-low-dupflag-odd") and cls not in ("app", "hb", "logon", "tr"):
                         continue
                     for order in ORDERS:
                         if order != "std" and cls not in ("app", "logon", "hb"):
@@ -565,6 +565,8 @@ def defect_frame(d, cls, s, E_, order, possdup=False):
         seq = None
     elif d == "seq-too-low":
         seq = E_ - 1
+    elif d == "seq-too-low-dupflag-odd":
+        seq = E_ - 1       # ... and a PossDupFlag that is neither Y nor N ("y", "1", "YES"): not a retransmission, so simply too low
     elif d.startswith("seq-spelled"):
         seq = {"seq-spelled-plus": f"+{s}", "seq-spelled-blank": f" {s}", "seq-spelled-underscore": f"0_{s}"}[d]
     elif d == "seq-one":
@@ -573,9 +575,11 @@ def defect_frame(d, cls, s, E_, order, possdup=False):
         bs = b"FIX.4.2"
     elif d == "beginstring-fixt":
         bs = b"FIXT.1.1"
-    if cls in ("gf", "rs") and d in ("seq-too-low", "seq-one"):
+    if cls in ("gf", "rs") and d in ("seq-too-low", "seq-one", "seq-too-low-dupflag-odd"):
         return None      # SequenceReset below expectation: outside this property
     mt, body = body_for(cls, seq if isinstance(seq, int) else s)
+    if d == "seq-too-low-dupflag-odd":
+        body = [(43, ("y", "1", "YES", "true")[E_ % 4])] + list(body)
     return mkframe(mt, seq, sender, target, body, possdup, order, bs)
 
 
@@ -613,6 +617,8 @@ async def cell_B(acc, clock, cell, cid):
         return
     acc.oracle("B:integrity")
     dk = {"seq-one": "seq-too-low"}.get(d, d)
+    if d == "seq-too-low-dupflag-odd" and st == "prelogon":
+        return
     if n.rx != o.rx:
         return acc.violation(f"{dk}:{stname}:delivered", f"{cls} with defect {d} handed to on_message", w, cid)
     if (n.live_in, n.st_in) != (o.live_in, o.st_in):
@@ -621,7 +627,7 @@ async def cell_B(acc, clock, cell, cid):
         return acc.violation(f"{dk}:{stname}:session-callback", f"callbacks {ep.ev[o.ev:]}", w, cid)
     if n.state > CS.DISCONNECTED_BROKEN_CONN:
         return acc.violation(f"{dk}:{stname}:not-disconnected", f"state {n.state.name} after {cls} with defect {d}", w, cid)
-    if d in ("seq-missing", "seq-too-low", "seq-one"):
+    if d in ("seq-missing", "seq-too-low", "seq-one", "seq-too-low-dupflag-odd"):
         last = new[-1] if new else None
         if last is None or fixwire.get(last, 35) != "5" or not fixwire.get(last, 58):
             return acc.violation(f"{dk}:{stname}:no-logout-with-reason", f"last frame on the tap: {fixwire.get(last, 35) if last else None}", w, cid)
